@@ -883,7 +883,6 @@ func (w *c4worker) malformedGen() ([]byte, string) {
 	}
 }
 
-
 // ------------------------------------------------------------------ the Go decoders on arbitrary byte strings
 
 // Every byte string whose length is a multiple of the value width IS a conformant PLAIN /
